@@ -45,10 +45,14 @@ class HostStub:
 class Wire:
     """FIFO of (destination side, connection handle, cid, payload); `log` keeps everything that crossed"""
 
-    def __init__(self, handles=(1,)):
+    def __init__(self, handles=(1,), features=(None, None)):
         self.q = []
         self.log = []
-        self.mgr = [l2cap.ChannelManager(), l2cap.ChannelManager()]
+        # by default both managers advertise what a Device does (DeviceConfiguration.l2cap_extended_features)
+        F = l2cap.L2CAP_Information_Request.ExtendedFeatures
+        default = (F.FIXED_CHANNELS, F.FCS_OPTION, F.ENHANCED_RETRANSMISSION_MODE)
+        self.mgr = [l2cap.ChannelManager(features[0] if features[0] is not None else default),
+                    l2cap.ChannelManager(features[1] if features[1] is not None else default)]
         self.host = [HostStub(self, 0), HostStub(self, 1)]
         self.mgr[0].host = self.host[0]
         self.mgr[1].host = self.host[1]
